@@ -15,7 +15,7 @@ REACTIONS = {
     'r_delay': (['B'], [], 'massaction', {'k': 0.6}, 'fixed', [], ['C'], {'delay': 0.3}),
     'r_gdelay': (['A'], [], 'massaction', {'k': 0.7}, 'gaussian', [], ['B'], {'mean': 0.3, 'std': 0.2}),
 }
-OPS = ['species', 'r_ma', 'r_hill', 'r_gen', 'r_delay', 'r_gdelay', 'param', 'rule', 'rule_dt', 'setp', 'sets', 'init', 'iface', 'iface_safe',
+OPS = ['species', 'r_ma', 'r_hill', 'r_gen', 'r_delay', 'r_gdelay', 'param', 'rule', 'rule_dt', 'setp', 'setps', 'sets', 'init', 'iface', 'iface_safe',
        'sim_det', 'sim_ssa', 'sim_safe', 'sim_vol', 'sim_delay', 'sim_iface', 'sim_iface_det', 'other_det', 'seed']
 
 
@@ -82,6 +82,12 @@ def apply(m, sh, op, ctx_state, c, case):
         ctx_state['setp'].append(v)
         m.set_parameter('kf', v)
         sh.params = [(p, (v if p == 'kf' else val)) for p, val in sh.params]
+    elif op == 'setps':
+        # Model.set_params (dictionary form); kf is the first parameter of the model (index 0)
+        v = 1.5 + 0.25 * (1 + sum(1 for _ in ctx_state['setp']))
+        ctx_state['setp'].append(v)
+        m.set_params({'kf': v, 'KK': 2.0})
+        sh.params = [(p, (v if p == 'kf' else val)) for p, val in sh.params]
     elif op == 'sets':
         v = 5.0 + len(ctx_state['sets']) + 1
         ctx_state['sets'].append(v)
@@ -112,7 +118,18 @@ def apply(m, sh, op, ctx_state, c, case):
                 if ctx_state.get('iface') is not None and ctx_state.get('iface_valid'):
                     ctx_state['iface'].py_set_dt(0.25)
                     if op == 'sim_iface':
-                        SSASimulator().py_simulate(ctx_state['iface'], TIMES)
+                        br.py_seed_random(97 + SEED)
+                        r_ = SSASimulator().py_simulate(ctx_state['iface'], TIMES)
+                        fm = sh.fresh()
+                        fi = (SafeModelCSimInterface if type(ctx_state['iface']).__name__.startswith('Safe') else ModelCSimInterface)(fm)
+                        fi.py_set_dt(0.25)
+                        br.py_seed_random(97 + SEED)
+                        ref_ = SSASimulator().py_simulate(fi, TIMES)
+                        a_, b_ = np.asarray(r_.py_get_result()), np.asarray(ref_.py_get_result())
+                        o_, f_ = m.get_species_list(), fm.get_species_list()
+                        if a_.shape != b_.shape or not np.array_equal(a_[:, [o_.index(s_) for s_ in sorted(o_)]], b_[:, [f_.index(s_) for s_ in sorted(f_)]]):
+                            c.violation('C08/history-dependent/kept-interface-ssa', 'seeded SSA through the kept (still current) interface differs from a freshly built '
+                                        'model of the same definition', case)
                     else:
                         from bioscrape.simulator import DeterministicSimulator
                         ctx_state['iface'].py_prep_deterministic_simulation()
@@ -204,6 +221,10 @@ def run(ctx):
     hists = []
     for n in range(1, L + 1):
         hists += list(itertools.product(OPS, repeat=n))
+    # kept-interface chains: build an interface, then every sequence of 3 (quick) / 4 (thorough) operations that keep it current
+    chain = ['sim_iface', 'sim_iface_det', 'setp', 'setps', 'sets', 'other_det', 'seed']
+    for first in ('iface', 'iface_safe'):
+        hists += [(first,) + h for h in itertools.product(chain, repeat=3 if ctx.quick else 4)]
     if not ctx.quick:
         small = ['r_hill', 'r_gdelay', 'rule', 'rule_dt', 'setp', 'init', 'iface', 'sim_ssa', 'sim_det', 'sim_iface']
         hists += list(itertools.product(small, repeat=5))
